@@ -120,6 +120,8 @@ def check(ctx):
         ctx.require(isinstance(guard, ast.If) and n in guard.body, "the propagation site is not directly under an `if`")
         atoms = {"dynamic": "dynamic", "conversion is None": "no_conv", "conversion is not None": "!no_conv", "is_subclass(tp, Collection)": "coll", "is_subclass(tp, str)": "isstr"}
         def special12(e, _):
+            if norm(e) == "is_convertible(tp)":
+                return lambda v: True      # the site comes after `if not is_convertible(tp): return ...`
             # `<origin of tp> in <module-level table of container classes>`: true for the listed builtin / typing
             # containers only - a finite subset of the Collection classes (never str)
             if isinstance(e, ast.Compare) and len(e.ops) == 1 and isinstance(e.ops[0], (ast.In, ast.NotIn)) and isinstance(e.comparators[0], ast.Name) and e.comparators[0].id.isupper() and "tp" in norm(e.left):
@@ -127,11 +129,14 @@ def check(ctx):
                 return lambda v: (not v["plain"]) if neg else v["plain"]
             return None
         be = BoolEval(atoms, special=special12)
+        # the condition under which the site is reached: the guard and what encloses / precedes it (`if dynamic: return` before it counts)
+        from ..pathcond import path_condition as _pc12
+        reach12 = _pc12(fi.node, n, parents)
         try:
             bad = None
             for v in valuations(["dynamic", "no_conv", "coll", "isstr", "plain"], lambda v: (not v["plain"]) or (v["coll"] and not v["isstr"])):
                 want = (not v["dynamic"]) and v["coll"] and not v["isstr"]
-                got = bool(be.ev(guard.test, v))
+                got = bool(be.ev(reach12, v))
                 if got != want and bad is None:
                     bad = (v, got, want)
             ctx.check(bad is None, "C12.R3", f"{fi.qualname}:guard", guard.test,
